@@ -73,14 +73,31 @@ Theorem C16_contraction_order : forall t : rtree, contraction_order t = map ket_
 Proof. exact contraction_order_spec. Qed.
 Print Assumptions C16_contraction_order.
 
-(* on the names: the regex filter of the code selects exactly these identifiers whenever neither
-   the root's name nor a bra name contains the ket suffix *)
+(* on the names: the regex filter of the code as it stands (bug_regex = true) selects exactly
+   these identifiers whenever neither the root's name nor a bra name contains the ket suffix *)
 Theorem C16_contraction_order_names : forall (root_name ksuf bsuf : string) (names : nat -> string) (t : rtree),
   is_ket_s ksuf root_name = false ->
   (forall n, In n (ids t) -> is_ket_s ksuf (bra_id_s bsuf (names n)) = false) ->
-  contraction_order_s root_name ksuf bsuf names t = map ket_id (postorder t).
+  contraction_order_s true root_name ksuf bsuf names t = map ket_id (postorder t).
 Proof. exact contraction_order_s_ok. Qed.
 Print Assumptions C16_contraction_order_names.
+
+(* the repaired filter (endswith) does so for all node names *)
+Theorem C16_contraction_order_names_repaired : forall (root_name ksuf bsuf : string) (names : nat -> string) (t : rtree),
+  String.length ksuf = String.length bsuf -> ksuf <> bsuf ->
+  ends_with ksuf root_name = false ->
+  contraction_order_s false root_name ksuf bsuf names t = map ket_id (postorder t).
+Proof. exact contraction_order_s_fixed. Qed.
+Print Assumptions C16_contraction_order_names_repaired.
+
+(* witness for the regex filter: the bra image of a node named "a_ket" is taken for a ket node *)
+Example C16_regex_filter_refuted :
+  let names := fun n : nat => nth n ["a_ket"; "b"]%string EmptyString in
+  let t := RNode 0 [RNode 1 []] in
+  map code (contraction_order_s true "ttndo_root" "_ket" "_bra" names t) = [3; 1; 2] /\
+  map code (contraction_order_s false "ttndo_root" "_ket" "_bra" names t) = [3; 1].
+Proof. vm_compute. split; reflexivity. Qed.
+Print Assumptions C16_regex_filter_refuted.
 
 (* the calls from_ttns makes: one per node in pre-order; a child goes with its leg 0 to leg
    (position + 1) of the images of its parent, on both sides; the state's root goes to leg 0
